@@ -145,6 +145,23 @@ theorem jobid_fresh (table : Nat → Option Nat) (draws : List Nat) :
       exact ⟨by omega, Nat.mod_lt _ (by decide), h.1⟩
     · exact ih
 
+/-- **The SvResync gate** (`receiveSingle`, the consumer of `hasJob`): the settings an SvResync
+packet carries are applied exactly while the Job it names is pending; a number that is not in the
+table is ignored whatever it is — 0 and 1, which are never handed out, get no shortcut — and a
+number `newJobID` is about to hand out is not yet accepted. The decision function is compared with
+the real `receiveSingle` on every run (op `resync`). -/
+theorem resync_only_for_pending (table : Nat → Option Nat) (id : Nat) :
+    (resyncApplied table id = true ↔ ∃ r, table id = some r) ∧
+    (table id = none → resyncApplied table id = false) := by
+  unfold resyncApplied hasJob
+  cases h : table id <;> simp
+
+theorem resync_fresh_number_ignored (table : Nat → Option Nat) (draws : List Nat)
+    (h : newJobID table draws ≠ 0) : resyncApplied table (newJobID table draws) = false := by
+  rcases jobid_fresh table draws with h0 | ⟨_, _, hn⟩
+  · exact absurd h0 h
+  · exact (resync_only_for_pending table _).2 hn
+
 /-- … and Task registers a Job only under a number that is not pending (check, queueing and
 insert are one locked action), so a pending Job is never displaced from the table. -/
 theorem task_never_displaces (s : St) (t id : Nat) (draws : List Nat) (wf : Bool) (i r : Nat)
